@@ -145,6 +145,9 @@ pub fn check(case: &Case, _known: &Known) -> Outcome {
         let expect = &by_opt.iter().find(|(n, _)| n == dn).unwrap().1;
         let mut headers: Vec<String> = DIALECTS.iter().map(|(hn, _)| format!("sql.{hn}")).collect();
         headers.push("sql.any".into());
+        // an unknown header is a different header too: the option decides (two names per dialect)
+        headers.push("sql.nosuchdb".into());
+        headers.push(format!("sql.{dn}x"));
         for h in headers {
             let hsrc = with_header(&h);
             let got = show(&util::compile(&hsrc, Some(*d)));
@@ -235,7 +238,7 @@ pub fn check(case: &Case, _known: &Known) -> Outcome {
         catch(|| prqlc::prql_to_pl(src).and_then(prqlc::pl_to_rq).is_ok()).ok()
     };
     let base = accept(p);
-    for h in ["sql.any", "sql.sqlite", "sql.mssql", "sql.clickhouse", "sql.bigquery"] {
+    for h in ["sql.any", "sql.sqlite", "sql.mssql", "sql.clickhouse", "sql.bigquery", "sql.nosuchdb", "mssql"] {
         let a = accept(&with_header(h));
         if a != base {
             return fail(
